@@ -273,4 +273,11 @@ def getEntryOrNone (T : Tables) (l : LookupId) (cs : List Card) : Except EvalErr
   | .error e => .error e
   | .ok k => .ok ((T.tbl l).get? k)
 
+/-- `get_entry_or_none` of the two stud-opening lookups, as an index: what `_begin_betting` compares
+    the players' exposed cards by (the environment's `openEntry`) -/
+def openEntryOf (T : Tables) (low : Bool) (cs : List Card) : Except EvalErr (Option Nat) :=
+  match getEntryOrNone T (if low then .lowOpening else .highOpening) cs with
+  | .ok e => .ok (e.map (·.index))
+  | .error e => .error e
+
 end PK
